@@ -50,7 +50,9 @@ Deliver, all inside {wt}:
  * `{wt}/seed_demo.py`: a small stand-alone program (run as `cd {wt} && /venv/bin/python seed_demo.py`,
    importing edzed from the current directory, real-time asyncio, finishing within ~20 s) that exits
    non-zero (assertion) WITH your change and prints OK and exits 0 WITHOUT it (check both with
-   `git stash` / `git stash pop`). It must use only documented/public behaviour to show the breakage.
+   `git diff -- edzed > /tmp/seed_{pid}.patch; git apply -R /tmp/seed_{pid}.patch; ...; git apply /tmp/seed_{pid}.patch`
+   - do NOT use `git stash`: the stash is shared between all worktrees of the repository and other
+   jobs are working in sibling worktrees at the same time). It must use only documented/public behaviour to show the breakage.
  * `{wt}/seed_note.md`: a few lines - which clause of the property is broken, what exactly is needed
    for it to manifest, why the test suite does not notice.
 
